@@ -6,6 +6,7 @@ import (
 	"fmt"
 	"io"
 	"os"
+	"runtime"
 	"strings"
 	"time"
 
@@ -26,12 +27,15 @@ type c06Ev struct {
 	PMID int
 	Ms   int
 	PLen int // send: payload length (> 0: POST with a patterned body)
+	Mid  int // sendm: name of the message ID chosen by the application (the ID of request Mid, or a fresh one)
 }
 
 func (e c06Ev) desc() string {
 	switch e.Kind {
 	case "send":
 		return fmt.Sprintf("send:%d:%x:%d:%d", e.ID, e.Tok, e.DL, e.PLen)
+	case "sendm":
+		return fmt.Sprintf("sendm:%d:%x:%d:%d:%d", e.ID, e.Tok, e.DL, e.PLen, e.Mid)
 	case "age":
 		return fmt.Sprintf("age:%d", e.Ms)
 	case "wait":
@@ -55,7 +59,7 @@ func parseC06Ev(s string) c06Ev {
 	atoi := func(x string) int { var v int; fmt.Sscanf(x, "%d", &v); return v }
 	e := c06Ev{Kind: f[0]}
 	switch f[0] {
-	case "send":
+	case "send", "sendm":
 		e.ID = atoi(f[1])
 		for i := 0; i+1 < len(f[2]); i += 2 {
 			var b int
@@ -65,6 +69,9 @@ func parseC06Ev(s string) c06Ev {
 		e.DL = atoi(f[3])
 		if len(f) > 4 {
 			e.PLen = atoi(f[4])
+		}
+		if len(f) > 5 {
+			e.Mid = atoi(f[5])
 		}
 	case "age", "wait":
 		e.Ms = atoi(f[1])
@@ -77,6 +84,18 @@ func parseC06Ev(s string) c06Ev {
 		e.ID = atoi(f[1])
 	}
 	return e
+}
+
+// item renders one observed event of a history (Retx.Run.hev)
+func (e c06Ev) item(ems, rs []string) string {
+	if e.Kind == "sendm" {
+		dl := "None"
+		if e.DL > 0 {
+			dl = fmt.Sprintf("(Some %d)", e.DL)
+		}
+		return fmt.Sprintf("HM %d %s %s %d [%s] [%s]", e.ID, coqBytes(e.Tok), dl, e.Mid, strings.Join(ems, "; "), strings.Join(rs, "; "))
+	}
+	return fmt.Sprintf("HE %s [%s] [%s]", e.coq(), strings.Join(ems, "; "), strings.Join(rs, "; "))
 }
 
 func (e c06Ev) coq() string {
@@ -107,6 +126,7 @@ func (e c06Ev) coq() string {
 
 type c06Req struct {
 	code   int
+	name   int // name of the request's message ID
 	id     int
 	tok    []byte
 	mid    int
@@ -120,6 +140,62 @@ type c06Result struct {
 	id   int
 	res  int
 	code int
+}
+
+// c06Owner says which request a confirmable datagram written by the connection is a copy of (0 = none):
+// the request with its token (tokens are distinct within a history); failing that, a transmitted request
+// with its message ID, one whose call has not returned first (message IDs may be reused by later requests).
+func c06Owner(reqs map[int]*c06Req, order []int, w wireMsg) int {
+	if w.Bad || w.Typ != 0 {
+		return 0
+	}
+	for _, id := range order {
+		if r := reqs[id]; w.Code == r.code && bytes.Equal(w.Tok, r.tok) {
+			return id
+		}
+	}
+	for _, wantRunning := range []bool{true, false} {
+		for _, id := range order {
+			r := reqs[id]
+			if r.first != nil && w.MID == r.mid && w.Code == r.code && (!wantRunning || r.state != "done") {
+				return id
+			}
+		}
+	}
+	return 0
+}
+
+// c06Quiescent reports, from a snapshot of all goroutine stacks, that every goroutine started by
+// runC06History (the callers of Conn.Do) and every goroutine inside the connection is blocked (select,
+// semaphore, channel, mutex, sleep): none is running or runnable. A goroutine woken by the event just
+// processed is runnable from the moment it is woken until it blocks again or ends.
+func c06Quiescent() bool {
+	buf := make([]byte, 1<<16)
+	for {
+		n := runtime.Stack(buf, true)
+		if n < len(buf) {
+			buf = buf[:n]
+			break
+		}
+		buf = make([]byte, 2*len(buf))
+	}
+	for i, g := range strings.Split(string(buf), "\n\n") {
+		if i == 0 {
+			continue // the calling goroutine comes first
+		}
+		if !strings.Contains(g, "created by main.runC06History") && !strings.Contains(g, "go-coap/v3/udp/client.") {
+			continue
+		}
+		a, b := strings.Index(g, "["), strings.Index(g, "]")
+		if a < 0 || b < a {
+			continue
+		}
+		st := g[a+1 : b]
+		if strings.HasPrefix(st, "running") || strings.HasPrefix(st, "runnable") || strings.HasPrefix(st, "syscall") {
+			return false
+		}
+	}
+	return true
 }
 
 // runC06History executes one history; returns Coq text.
@@ -141,6 +217,10 @@ func runC06History(evs []c06Ev, ackMs, maxRt, nstart int) string {
 	defer mc.close()
 	reqs := map[int]*c06Req{}
 	var order []int
+	// message IDs by name (Retx/ModelMid.v): the name of the ID of a request issued with plain "send" is the
+	// request's own number (bound to the real ID when the first copy shows it); "sendm" names the ID the
+	// application chose: that of an earlier request, or a fresh one outside the range of the connection's counter
+	midName := map[int]int{}
 	results := make(chan c06Result, 64)
 	dbg := os.Getenv("HXDBG") != ""
 	window := 6 * time.Millisecond
@@ -170,6 +250,20 @@ func runC06History(evs []c06Ev, ackMs, maxRt, nstart int) string {
 		if e.Kind == "tickack" {
 			if r := reqs[e.ID]; r.first == nil {
 				continue
+			}
+		}
+		if e.Kind == "send" || e.Kind == "sendm" {
+			if reqs[e.ID] != nil {
+				continue // request numbers are used once
+			}
+		}
+		if e.Kind == "sendm" {
+			if _, bound := midName[e.Mid]; !bound {
+				if reqs[e.Mid] != nil {
+					// the ID of a request that has not been transmitted (yet, or ever): nothing to reuse
+					continue
+				}
+				midName[e.Mid] = 0x7000 + (e.Mid & 0xfff)
 			}
 		}
 		if e.Kind == "tickx" || e.Kind == "tickack" {
@@ -207,21 +301,10 @@ func runC06History(evs []c06Ev, ackMs, maxRt, nstart int) string {
 			mc.takeLog()
 			var ems []string
 			for _, w := range out {
-				if !w.Bad && r.first != nil && w.MID == r.mid && w.Typ == 0 && w.Code == r.code {
-					ems = append(ems, fmt.Sprintf("OCopy %d %s", r.id, coqBool(bytes.Equal(w.Raw, r.first))))
+				if id := c06Owner(reqs, order, w); !w.Bad && id != 0 && reqs[id].first != nil {
+					ems = append(ems, fmt.Sprintf("OCopy %d %s", id, coqBool(bytes.Equal(w.Raw, reqs[id].first))))
 				} else {
-					matched := false
-					for _, id := range order {
-						q := reqs[id]
-						if !w.Bad && q.first != nil && w.MID == q.mid && w.Typ == 0 && w.Code == q.code {
-							ems = append(ems, fmt.Sprintf("OCopy %d %s", id, coqBool(bytes.Equal(w.Raw, q.first))))
-							matched = true
-							break
-						}
-					}
-					if !matched {
-						ems = append(ems, "OOther")
-					}
+					ems = append(ems, "OOther")
 				}
 			}
 			if fired {
@@ -242,7 +325,7 @@ func runC06History(evs []c06Ev, ackMs, maxRt, nstart int) string {
 			continue
 		}
 		switch e.Kind {
-		case "send":
+		case "send", "sendm":
 			ctx, cancel := context.WithCancel(context.Background())
 			if e.DL > 0 {
 				ctx, cancel = context.WithTimeout(context.Background(), time.Duration(e.DL)*time.Millisecond)
@@ -256,6 +339,15 @@ func runC06History(evs []c06Ev, ackMs, maxRt, nstart int) string {
 			req.SetToken(e.Tok)
 			req.SetType(message.Confirmable)
 			_ = req.SetPath("/r")
+			name := e.ID
+			if e.Kind == "sendm" {
+				name = e.Mid
+			}
+			r.name = name
+			if m, bound := midName[name]; bound {
+				// a message ID chosen by the application: the connection keeps a valid ID (UpsertMessageID)
+				req.SetMessageID(int32(m))
+			}
 			if e.PLen > 0 {
 				req.SetCode(codes.POST)
 				r.code = int(codes.POST)
@@ -370,7 +462,18 @@ func runC06History(evs []c06Ev, ackMs, maxRt, nstart int) string {
 					lastChange = time.Now()
 				}
 				if len(rets) >= expectRet && time.Since(lastChange) > window {
-					break
+					// witness besides the window: no caller (and no goroutine of the connection) is running or
+					// waiting for a processor - under load a woken goroutine may not get to run within the window
+					if c06Quiescent() {
+						collect()
+						mc.s.mu.Lock()
+						nout = len(mc.s.out)
+						mc.s.mu.Unlock()
+						if nout == lastOut && len(rets) == lastRet {
+							break
+						}
+						continue
+					}
 				}
 				if time.Now().After(hard) {
 					break
@@ -385,21 +488,20 @@ func runC06History(evs []c06Ev, ackMs, maxRt, nstart int) string {
 		for _, w := range out {
 			matched := false
 			if !w.Bad {
-				for _, id := range order {
+				if id := c06Owner(reqs, order, w); id != 0 {
 					r := reqs[id]
-					if r.first == nil && bytes.Equal(w.Tok, r.tok) && w.Typ == 0 && w.Code == r.code {
+					if r.first == nil {
 						r.first = w.Raw
 						r.mid = w.MID
 						mc.avoidMID[w.MID] = true
+						if _, bound := midName[r.name]; !bound {
+							midName[r.name] = w.MID
+						}
 						ems = append(ems, fmt.Sprintf("OCopy %d true", id))
-						matched = true
-						break
-					}
-					if r.first != nil && w.MID == r.mid && w.Typ == 0 && w.Code == r.code {
+					} else {
 						ems = append(ems, fmt.Sprintf("OCopy %d %s", id, coqBool(bytes.Equal(w.Raw, r.first))))
-						matched = true
-						break
 					}
+					matched = true
 				}
 				if !matched && w.Typ == 2 && w.Code == 0 && len(w.Tok) == 0 {
 					ems = append(ems, fmt.Sprintf("OBareAck %d", w.MID))
@@ -417,7 +519,7 @@ func runC06History(evs []c06Ev, ackMs, maxRt, nstart int) string {
 		if dbg {
 			fmt.Fprintf(os.Stderr, "%s -> em=%v ret=%v sizes=%v\n", e.desc(), ems, rs, mc.cc.VerifSizes())
 		}
-		items = append(items, fmt.Sprintf("HE %s [%s] [%s]", e.coq(), strings.Join(ems, "; "), strings.Join(rs, "; ")))
+		items = append(items, e.item(ems, rs))
 		if perEventC06 != nil {
 			perEventC06(e)
 		}
@@ -576,23 +678,154 @@ func genC06History(rng *Rng) ([]c06Ev, int, int, int) {
 	return evs, ack, maxrt, nst
 }
 
+// canonC06Mid: histories in which the application chooses message IDs itself (Retx/ModelMid.v): a second
+// request with the message ID of a request that is still unacknowledged is refused and must leave the
+// first exchange alone (it is still retransmitted, its ACK / response still ends it); an ID may be used
+// again once the earlier exchange is over. Not shared with C12.
+func canonC06Mid() []c06Canon {
+	var out []c06Canon
+	add := func(evs []c06Ev, ack, maxrt, nst int) { out = append(out, c06Canon{evs, ack, maxrt, nst}) }
+	s := func(id int, tok ...byte) c06Ev { return c06Ev{Kind: "send", ID: id, Tok: tok} }
+	m := func(id, mid int, tok ...byte) c06Ev { return c06Ev{Kind: "sendm", ID: id, Tok: tok, Mid: mid} }
+	age := func(ms int) c06Ev { return c06Ev{Kind: "age", Ms: ms} }
+	tick := c06Ev{Kind: "tick"}
+	k := func(kind string, id int) c06Ev { return c06Ev{Kind: kind, ID: id} }
+	piggy := func(id int) c06Ev { return c06Ev{Kind: "piggy", ID: id, Code: 69} }
+	sep := func(id, pmid int) c06Ev { return c06Ev{Kind: "sep", ID: id, Code: 69, PMID: pmid} }
+	// collision with a pending request: refused; the pending one is re-sent and then answered (piggybacked)
+	add([]c06Ev{s(1, 0xa1), m(2, 1, 0xb1), age(2500), tick, piggy(1), age(2500), tick}, 2000, 4, 2)
+	// ... answered by an empty ACK followed by a separate response
+	add([]c06Ev{s(1, 0xa2), m(2, 1, 0xb2), k("ack", 1), sep(1, 300), age(2500), tick}, 2000, 4, 2)
+	// ... two refused calls, full retransmission schedule of the pending one, answered at the last moment
+	add([]c06Ev{s(1, 0xa3), m(2, 1, 0xb3), age(1500), tick, m(3, 1, 0xc3), age(1000), tick, age(1000), tick, piggy(1), k("cancel", 1)}, 1000, 2, 3)
+	// both message IDs chosen by the application (a fresh one), POST with a payload
+	add([]c06Ev{{Kind: "sendm", ID: 1, Tok: []byte{0xa4}, Mid: 100, PLen: 40}, m(2, 100, 0xb4), age(2500), tick, k("rst", 1), sep(1, 301), k("cancel", 1)}, 2000, 4, 2)
+	// the colliding request has to queue for its NSTART slot first and is refused when it gets it
+	add([]c06Ev{s(1, 0xa5), s(2, 0xb5), m(3, 1, 0xc5), age(2500), tick, k("ack", 2), age(2500), tick, piggy(1), k("cancel", 2)}, 2000, 4, 2)
+	add([]c06Ev{s(1, 0xa6), s(2, 0xb6), m(3, 1, 0xc6), k("cancel", 2), age(2500), tick, k("ack", 1), sep(1, 302)}, 2000, 4, 2)
+	// the refused caller cancels afterwards, the pending caller cancels: nothing more is sent
+	add([]c06Ev{s(1, 0xa7), m(2, 1, 0xb7), k("cancel", 2), age(2500), tick, k("cancel", 1), age(2500), tick}, 2000, 4, 2)
+	// an ID is free again once the earlier exchange is over: acknowledged, answered, cancelled, exhausted
+	add([]c06Ev{s(1, 0xa8), piggy(1), m(2, 1, 0xb8), age(2500), tick, piggy(2), age(2500), tick}, 2000, 4, 1)
+	add([]c06Ev{s(1, 0xa9), k("ack", 1), m(2, 1, 0xb9), age(2500), tick, k("ack", 1), sep(2, 303), sep(1, 304)}, 2000, 4, 2)
+	add([]c06Ev{s(1, 0xaa), k("cancel", 1), m(2, 1, 0xba), age(2500), tick, k("rst", 2), k("cancel", 2)}, 2000, 4, 1)
+	add([]c06Ev{s(1, 0xab), age(2500), tick, age(2500), tick, age(2500), tick, m(2, 1, 0xbb), age(2500), tick, piggy(2), k("cancel", 1)}, 2000, 1, 2)
+	// queued behind the request whose ID it reuses (NSTART 1): admitted when that one is acknowledged
+	add([]c06Ev{s(1, 0xac), m(2, 1, 0xbc), k("ack", 1), age(2500), tick, k("ack", 1), sep(1, 305), sep(2, 306)}, 2000, 4, 1)
+	// after a refused call: a tick that has fetched the pending entry when the pending caller cancels (F19 window)
+	add([]c06Ev{s(1, 0xad), m(2, 1, 0xbd), age(2500), {Kind: "tickx", ID: 1}, age(2500), tick}, 2000, 4, 2)
+	return out
+}
+
+// genC06MidHistory draws one history with application-chosen message IDs (not shared with C12).
+func genC06MidHistory(rng *Rng) ([]c06Ev, int, int, int) {
+	ack := []int{1000, 2000}[rng.Intn(2)]
+	maxrt := []int{0, 1, 2, 4, 4}[rng.Intn(5)]
+	nst := []int{1, 2, 2, 3}[rng.Intn(4)]
+	nreq := 2 + rng.Intn(3)
+	k := 5 + rng.Intn(10)
+	var evs []c06Ev
+	started := 0
+	pmid := 400
+	now := 0
+	var sendTimes, dls []int
+	okTime := func(t int) bool {
+		for i, st := range sendTimes {
+			el := t - st
+			for kk := 1; kk <= 6; kk++ {
+				if d := el - kk*ack; d > -400 && d < 400 {
+					return false
+				}
+			}
+			if dls[i] > 0 {
+				if d := el - dls[i]; d > -400 && d < 400 {
+					return false
+				}
+			}
+		}
+		return true
+	}
+	for len(evs) < k {
+		r := rng.Intn(100)
+		switch {
+		case started < nreq && (started == 0 || r < 25):
+			tok := []byte{byte(0xD0 + started), byte(rng.U64()), byte(rng.U64())}
+			dl := 0
+			if rng.Chance(15) {
+				dl = []int{3000, 5000, 9000}[rng.Intn(3)]
+			}
+			ev := c06Ev{Kind: "send", ID: started + 1, Tok: tok, DL: dl}
+			if started == 0 && rng.Chance(30) {
+				ev.Kind, ev.Mid = "sendm", 100
+			} else if started > 0 && rng.Chance(75) {
+				ev.Kind = "sendm"
+				ev.Mid = 1 + rng.Intn(started) // the ID of an earlier request
+				if rng.Chance(15) {
+					ev.Mid = 100 + rng.Intn(2)
+				}
+			}
+			if rng.Chance(20) {
+				ev.PLen = 1 + rng.Intn(60)
+			}
+			evs = append(evs, ev)
+			sendTimes = append(sendTimes, now)
+			dls = append(dls, dl)
+			started++
+		case r < 50:
+			ms := []int{500, ack + 500, ack - 500, 2*ack + 100, 700, 1500, 3000}[rng.Intn(7)]
+			if okTime(now + ms) {
+				now += ms
+				evs = append(evs, c06Ev{Kind: "age", Ms: ms})
+			}
+		case r < 70:
+			evs = append(evs, c06Ev{Kind: "tick"})
+		default:
+			if started == 0 {
+				continue
+			}
+			id := 1 + rng.Intn(started)
+			switch rng.Intn(6) {
+			case 0, 5:
+				evs = append(evs, c06Ev{Kind: "ack", ID: id})
+			case 1:
+				evs = append(evs, c06Ev{Kind: "rst", ID: id})
+			case 2:
+				evs = append(evs, c06Ev{Kind: "piggy", ID: id, Code: []int{69, 68, 132}[rng.Intn(3)]})
+			case 3:
+				pmid++
+				evs = append(evs, c06Ev{Kind: "sep", ID: id, Code: []int{69, 65, 160}[rng.Intn(3)], PMID: pmid})
+			case 4:
+				evs = append(evs, c06Ev{Kind: "cancel", ID: id})
+			}
+			// a slot may have been freed now: a waiter's clock may start here
+			sendTimes = append(sendTimes, now)
+			dls = append(dls, 0)
+		}
+	}
+	return evs, ack, maxrt, nst
+}
+
 func runC06(a runArgs) error {
 	e := NewEmitter("C06", "Retx.Run")
 	e.Preamble = "From GoCoap Require Import Retx.Model Retx.Spec."
 	e.ShardSize = 100
-	e.Rule = "event histories on a real udp/client.Conn (in-memory session, virtual time by shifting the pending entries' stamps): 1-3 confirmable requests via Conn.Do (NSTART 1-2, ACK_TIMEOUT 1-2 s, MAX_RETRANSMIT 0-4, optional context deadline), housekeeping ticks at virtual times around every k x ACK_TIMEOUT boundary (never within 300 ms of one), and ACK / RST / piggybacked / separate responses / cancellation at every position. Distinct = distinct history; non-trivial = at least one re-send or one response/ack/reset/cancel event."
+	e.Rule = "event histories on a real udp/client.Conn (in-memory session, virtual time by shifting the pending entries' stamps): 1-3 confirmable requests via Conn.Do (NSTART 1-2, ACK_TIMEOUT 1-2 s, MAX_RETRANSMIT 0-4, optional context deadline), housekeeping ticks at virtual times around every k x ACK_TIMEOUT boundary (never within 300 ms of one), and ACK / RST / piggybacked / separate responses / cancellation at every position; a second family with message IDs chosen by the application (the ID of an earlier request of the history, or a fresh one): collisions with a still unacknowledged request (the call is refused, the pending exchange goes on), re-use of an ID after the earlier exchange is over, NSTART 1-3. Distinct = distinct history; non-trivial = at least one re-send or one response/ack/reset/cancel event."
 	rng := NewRng(a.seed)
 	emit := func(evs []c06Ev, ack, maxrt, nst int) {
 		txt := runC06History(evs, ack, maxrt, nst)
 		parts := make([]string, len(evs))
 		nt := false
+		midB := "mid-counter"
 		for i, ev := range evs {
 			parts[i] = ev.desc()
-			if ev.Kind != "send" && ev.Kind != "age" {
+			if ev.Kind != "send" && ev.Kind != "sendm" && ev.Kind != "age" {
 				nt = true
 			}
+			if ev.Kind == "sendm" {
+				midB = "mid-chosen"
+			}
 		}
-		e.Add(txt, fmt.Sprintf("%d,%d,%d|%s", ack, maxrt, nst, strings.Join(parts, " ")), nt, fmt.Sprintf("len%02d", len(evs)), fmt.Sprintf("nstart%d", nst), fmt.Sprintf("maxrt%d", maxrt))
+		e.Add(txt, fmt.Sprintf("%d,%d,%d|%s", ack, maxrt, nst, strings.Join(parts, " ")), nt, fmt.Sprintf("len%02d", len(evs)), fmt.Sprintf("nstart%d", nst), fmt.Sprintf("maxrt%d", maxrt), midB)
 	}
 	if a.only != "" {
 		parts := strings.SplitN(a.only, "|", 2)
@@ -614,6 +847,19 @@ func runC06(a runArgs) error {
 		emit(evs, ack, maxrt, nst)
 	}
 	for _, c := range canonC06() {
+		emit(c.evs, c.ack, c.maxrt, c.nst)
+	}
+	// application-chosen message IDs: collisions with pending requests, reuse after completion
+	nm := 70
+	if a.tier == "thorough" {
+		nm = 800
+	}
+	mrng := NewRng(a.seed ^ 0x6d6964)
+	for c := 0; c < nm; c++ {
+		evs, ack, maxrt, nst := genC06MidHistory(mrng)
+		emit(evs, ack, maxrt, nst)
+	}
+	for _, c := range canonC06Mid() {
 		emit(c.evs, c.ack, c.maxrt, c.nst)
 	}
 	return e.Flush(a.out)
